@@ -71,6 +71,10 @@ pub fn drive(args: &[String]) {
                         last[*ii] = Some((id, p, (r, c)));
                     }
                     ops.push(json!({"op": "draw", "img": canon[*ii], "alloc": ii, "w": img.width(), "h": img.height(), "r": r, "c": c, "bytes": buf, "id": [], "hasp": false}));
+                } else if *kind == 6 && *pi % 3 == 0 {
+                    // erase without a position: every placement of the image
+                    h.erase(&mut buf, img, None).unwrap();
+                    ops.push(json!({"op": "eraseall", "img": canon[*ii], "alloc": ii, "w": img.width(), "h": img.height(), "r": r, "c": c, "bytes": buf, "id": [], "hasp": false}));
                 } else if *kind < 7 {
                     h.erase(&mut buf, img, Some(Position::new(r, c))).unwrap();
                     ops.push(json!({"op": "erase", "img": canon[*ii], "alloc": ii, "w": img.width(), "h": img.height(), "r": r, "c": c, "bytes": buf, "id": [], "hasp": false}));
